@@ -301,6 +301,7 @@ structure State where
   suites  : List Suite := []
   reg     : List (Str × Suite) := []
   servers : List ServerToml := []
+  lastPriv : Option PrivCfg := none     -- what the last `private` op loaded
 
 def init : State := {}
 
@@ -350,7 +351,8 @@ def parseSuite (t : String) : Option Suite :=
 
 /-- ops: `suites <name:psize:ssize:ptype,…>`, `reg <svc=suite,…|->`, `text <hex>` (the file, ignored by
 the model), `server <addr> <suite> <pub> <pubok> <desc> <url> <svcs>`, `readgroup <n> <child>`,
-`writeread <suite> <n>`, `private <suite> <pub> <pubok> <priv> <addr> <desc> <url> <wskey> <svcs> <n> <child>` -/
+`writeread <suite> <n>`, `private <suite> <pub> <pubok> <priv> <addr> <desc> <url> <wskey> <svcs> <n> <child>`,
+`resave <fresh|shorter|garbage|keys|inplace> <n>` -/
 def step (s : State) (toks : List String) : State × String :=
   match toks with
   | ["suites", l] =>
@@ -404,12 +406,25 @@ def step (s : State) (toks : List String) : State × String :=
       | some wk, some sv, some _, some _ =>
         let hc : PrivCfg := { suite := su, pub := { s := p, ok := ok }, priv := pr, address := a,
                               description := d, url := u, wsKey := wk, services := sv }
+        ({ s with lastPriv := some (loadCothority hc) },
+          match getServerIdentity s.suites s.reg (loadCothority hc) with
+          | .ok si => showGroup [si]
+          | .err => "err"
+          | .panic => "panic")
+      | _, _, _, _ => (s, "bad-op")
+    | _, _, _, _, _, _, _ => (s, "bad-op")
+  | ["resave", hist, n] =>
+    -- the loaded configuration is saved to a path that held `hist` before and read again: the file
+    -- after `Save` is the saved configuration whatever was there (save-then-load = `loadCothority`)
+    match s.lastPriv, n.toNat? with
+    | some hc, some _ =>
+      if ["fresh", "shorter", "garbage", "keys", "inplace"].contains hist then
         (s, match getServerIdentity s.suites s.reg (loadCothority hc) with
             | .ok si => showGroup [si]
             | .err => "err"
             | .panic => "panic")
-      | _, _, _, _ => (s, "bad-op")
-    | _, _, _, _, _, _, _ => (s, "bad-op")
+      else (s, "bad-op")
+    | _, _ => (s, "bad-op")
   | _ => (s, "bad-op")
 
 end Drv
